@@ -272,7 +272,7 @@ func didComparable(x *Ctx, rule string) {
 		for i := 0; i < st.NumFields(); i++ {
 			if _, basic := st.Field(i).Type().Underlying().(*types.Basic); !basic {
 				ok = false
-				detail += "field " + st.Field(i).Name() + " is not of a basic type: == would compare identity, not value\n"
+				detail += "field " + paths.FieldName(st.Field(i)) + " is not of a basic type: == would compare identity, not value\n"
 			}
 		}
 	}
